@@ -282,4 +282,7 @@ def run(rep, facts, tier):
     _report.borrow(rep, facts, tier, 'C03', {'R03.3': 'R02.7', 'R03.9': 'R02.8', 'R03.12': 'R02.9'})
     _report.borrow(rep, facts, tier, 'C04', {'R04.1': 'R02.10', 'R04.4': 'R02.11', 'R04.6': 'R02.12'})
 
+    # ------------------------------------------------------------ R02.13 (mutation triage: `!=` -> `==` / `&&` -> `||` in the destination filter survived every check and the suite)
+    from rules import destfilter
+    destfilter.run_rule(rep, fx, 'R02.13', 'default', floor=2)
 
